@@ -1049,6 +1049,18 @@ class Executor:
                     return self.eval_const_body(cand)
                 if cand in self.dump.const_literals:
                     return self.eval_const(self.dump.const_literals[cand][0])
+        mp = re.search(r'([A-Za-z_][A-Za-z0-9_]*)::promoted\[(\d+)\]$', key)
+        if mp:
+            suffix = '::%s::promoted[%s]' % (mp.group(1), mp.group(2))
+            cands = [k for k in self.dump.const_index if k.endswith(suffix) or k == suffix[2:]]
+            if fn is not None:
+                # promoteds of the function being executed come first
+                own = [k for k in cands if k.startswith(fn.name + '::promoted[')]
+                if own:
+                    cands = own
+            if len(cands) == 1:
+                return self.eval_const_body(cands[0])
+            raise Unsupported("promoted constant %r: %d candidates" % (t, len(cands)))
         # unit-like ADT constants:  Path::Variant  /  Path::<T>::Variant(Unit)
         try:
             from mirparse import parse_rvalue
@@ -1659,10 +1671,13 @@ class Executor:
     # ------------------------------------------------------------------ calls
     def do_call(self, fn, callee, argv, guard, st):
         for hp in self.havoc_patterns:
+            depth_, expand_ = 0, (lambda b: False)
+            if isinstance(hp, tuple):
+                hp, depth_, expand_ = hp
             if re.search(hp, callee):
                 self.used_models['havoc: ' + hp] += 1
                 self.fresh_n += 1
-                hv = self.fresh_value(self._ret_ty, 'havoc!%d' % self.fresh_n, depth=0, expand=lambda b: False)
+                hv = self.fresh_value(self._ret_ty, 'havoc!%d' % self.fresh_n, depth=depth_, expand=expand_)
                 self.havoc_log.append((callee, hv))
                 return guard, hv
         for rx, handler, label in self.models:
